@@ -838,6 +838,14 @@ def targeted_programs():
                         st("g", "identity", 21, ["f"])], "outs": ["g", "f"]})
     P.append({"nodes": [{"id": "a", "op": "inline", "model": {"kind": "ml_only", "mlv": 2}, "args": ["x"]},
                         st("b", "rmean", 17, ["a"], axis=1), st("c", "identity", 19, ["b"])], "outs": ["c"]})
+    # a function body alone carries the model's maximum; a convertible node sits in a body elsewhere
+    for hi, (pop, pmv) in ((21, ("identity", 21)), (19, ("identity", 19)), (18, ("pad", 18))):
+        P.append({"nodes": [{"id": "f", "op": "func", "name": f"fhi{hi}", "params": ["p"], "args": ["y"],
+                             "body": {"nodes": [st("q", pop, pmv, ["p"])], "out": "q"}},
+                            {"id": "i", "op": "if", "mv": 17, "cond": "c",
+                             "then": {"nodes": [st("t", "rmean", 17, ["x"], axis=1)], "out": "t"},
+                             "else": {"nodes": [st("e", "neg", 17, ["x"])], "out": "e"}},
+                            st("d", "add", 17, ["f", "i"])], "outs": ["d"]})
     # the same function application built twice, in models with different maxima
     P.append({"nodes": [{"id": "f", "op": "func", "name": "ftwice", "params": ["p"], "args": ["x"],
                          "body": {"nodes": [st("q", "rmean", 17, ["p"], axis=0), st("r", "rmax", 18, ["q"], axis=1)], "out": "r"}},
